@@ -22,6 +22,7 @@ PAD_MODES = ("constant", "wrap", "edge")
 OPS = [("neg", 3), ("pos", 1), ("abs", 2), ("add", 4), ("mul", 3), ("mulnum", 2), ("comp", 3), ("lshift", 2), ("diff", 3),
        ("sub", 2), ("dot", 2), ("cross", 1), ("norm", 2), ("orientation", 1), ("integrate", 2), ("fromfield", 3), ("setsub", 2), ("q_meshclose", 1), ("q_fieldclose", 2), ("q_regionin", 1), ("q_aligned", 2),
        ("q_eq", 2), ("q_mean", 2), ("q_call", 3), ("mean", 2), ("setvdims", 2),
+       ("addnum", 2), ("pow2", 2), ("angle", 1), ("integratecum", 2),
        ("setvalid", 5), ("mutatevalid", 4), ("updateconst", 2), ("setarray", 2), ("writearray", 3),
        ("selplane", 3), ("selrange", 4), ("getsub", 3), ("getregion", 3), ("pad", 4), ("resample", 2),
        ("h5", 2), ("ovf", 1), ("vtk", 1), ("xarray", 2),
@@ -199,7 +200,17 @@ class Driver:
                 if self._maxabs(f) > 5e8 or self._maxabs(w.vars[y]) > 5e8:
                     continue
                 return self.call(op, x, y=y, dst=self.dst(x))
-            if op in ("dot", "cross"):
+            if op == "addnum":
+                if self._maxabs(f) > 1e9:
+                    continue
+                return self.call(op, x, dst=self.dst(x), a={"c": rnd.choice([-2, 3, -1, 2])})
+            if op == "pow2":
+                if self._maxabs(f) > 30000:
+                    continue
+                return self.call(op, x, dst=self.dst(x))
+            if op == "integratecum":
+                return self.call(op, x, dst=self.dst(x), a={"d": rnd.randint(1, nd)})
+            if op in ("dot", "cross", "angle"):
                 Y = [v for v in F if w.vars[v].nvdim == f.nvdim]
                 y = rnd.choice(Y)
                 if self._maxabs(f) > 15000 or self._maxabs(w.vars[y]) > 15000:
